@@ -1,0 +1,33 @@
+//go:build verif
+
+package dastard
+
+// Verification hooks for property C14 (build tag "verif" only): the real publisher goroutine of
+// startSocket with the real message builders, fed with records built from their projection.
+// No logic of dastard is changed here.
+
+// VerifPub is a running startSocket publisher.
+type VerifPub struct {
+	ch chan []*DataRecord
+}
+
+// VerifStartPub binds a ZMQ PUB socket on the given TCP port through startSocket, exactly as
+// configurePubRecordsSocket (summaries == false: messageRecords) and configurePubSummariesSocket
+// (summaries == true: messageSummaries) do.
+func VerifStartPub(port int, summaries bool) (*VerifPub, error) {
+	conv := messageRecords
+	if summaries {
+		conv = messageSummaries
+	}
+	ch, err := startSocket(port, conv)
+	if err != nil {
+		return nil, err
+	}
+	return &VerifPub{ch: ch}, nil
+}
+
+// Send hands one record to the publisher goroutine.
+func (p *VerifPub) Send(v VerifRecord) { p.ch <- []*DataRecord{verifDataRecord(v)} }
+
+// Close closes the feeding channel; the publisher goroutine then closes its socket.
+func (p *VerifPub) Close() { close(p.ch) }
